@@ -28,6 +28,33 @@ m = {
     "notes": "All checks: python3 tools/check.py <id> --tier quick|thorough. Exit 0 held, 1 VIOLATION, 2 machinery error. "
              "Known findings: known_findings.json. See DESIGN.md.",
 }
+# families each cross-cutting property names (from the anchors of properties.jsonl); a family with neither a theorem nor a
+# correspondence leg in a claimed part is stated as NOT covered in the level_note, so that the claim never exceeds the parts
+FAMILIES_OF = {
+    "C11": ["hll", "theta", "cpc", "bloom", "countmin", "freq", "tdigest"],
+    "C12": ["hll", "theta", "cpc", "bloom", "countmin", "freq", "tdigest"],
+    "C13": ["hll", "theta", "bloom", "countmin", "freq", "tdigest"],
+    "C14": ["hll", "theta", "cpc", "bloom", "countmin", "freq", "tdigest"],
+    "C17": ["hll", "theta", "cpc", "bloom", "countmin", "freq", "tdigest"],
+    "C18": ["hll", "theta", "cpc", "freq", "tdigest", "bloom", "countmin"],
+}
+FAMILY_NAME = {"freq": "Frequent Items", "cpc": "CPC", "hll": "HLL", "theta": "Theta", "bloom": "Bloom", "countmin": "Count-Min",
+               "tdigest": "t-digest"}
+
+
+def coverage_note(pid, sp):
+    if pid not in FAMILIES_OF:
+        return ""
+    covered = {l["family"] for l in sp["legs"]}
+    files = sp.get("props_files", [sp["props_file"]])
+    missing = [FAMILY_NAME[f] for f in FAMILIES_OF[pid] if f not in covered]
+    note = " Statement files: " + ", ".join("Props/%s.v" % f for f in files) + "."
+    if missing:
+        note += (" NOT covered (no theorem and no correspondence leg in this property yet, although the property text names the family): "
+                 + ", ".join(missing) + ".")
+    return note
+
+
 READY = {l.strip() for l in open(os.path.join(os.path.dirname(os.path.abspath(__file__)), 'ready.txt')) if l.strip() and not l.startswith('#')}
 for pid in ALL:
     if pid in registry.PROPS and pid in READY:
@@ -40,7 +67,8 @@ for pid in ALL:
             "replay_cmd_template": "python3 tools/check.py %s --replay {path}" % pid,
             "engine": "coq",
             "level_claimed": {"category": "proof", "text": sp["level_text"], "design_ref": sp.get("design_ref", "DESIGN.md section 5")},
-            "level_note": sp["level_note"] + ((" Parts merged: " + "; ".join(sp["covers"]) + ".") if sp.get("covers") else ""),
+            "level_note": sp["level_note"] + ((" Parts merged: " + "; ".join(sp["covers"]) + ".") if sp.get("covers") else "")
+                          + coverage_note(pid, sp),
             "technique": sp.get("technique", "machine-checked proof in Coq (Rocq) about an executable model + checked correspondence to the crate"),
         })
     else:
